@@ -27,6 +27,7 @@ import ssl
 from mitmproxy.addons.tlsconfig import TlsConfig
 from mitmproxy.addons.upstream_auth import UpstreamAuth
 from mitmproxy.proxy import layers
+from mitmproxy.proxy import server_hooks
 
 from vf import sansio
 from vf.gen import c08_peers as P
@@ -37,7 +38,7 @@ LEVEL = "exploration"
 ENGINE = "sansio"
 BUDGET = {"quick": (350, 18), "thorough": (40000, 220)}
 WORKERS = {"quick": 4, "thorough": 16}
-REQUIRED = ["option_change.unset_to_set", "option_change.set_to_other", "option_change.set_to_unset", "option_change.applied", "search.conn", "search.tunnel", "search.tls_plain", "cred.in_connect_head", "cred.in_plain_to_proxy", "cred.to_reverse_target", "forwarded.no_cred_expected"]
+REQUIRED = ["upstream.closes_after_response", "tunnel.reconnected", "hook.server_disconnected", "option_change.unset_to_set", "option_change.set_to_other", "option_change.set_to_unset", "option_change.applied", "search.conn", "search.tunnel", "search.tls_plain", "cred.in_connect_head", "cred.in_plain_to_proxy", "cred.to_reverse_target", "forwarded.no_cred_expected"]
 TECHNIQUE = "runtime monitoring: sans-io conversations with real addons, unique-token search on every wire / tunnel / decrypted stream"
 RULE = (
     "case = (mode, upstream_auth timeline: initially unset or a unique random credential, 0-2 runtime changes between items "
@@ -81,6 +82,60 @@ class TlsStartOnly:
 
     def __init__(self, ta):
         self.tls_start_server = ta.tls_start_server
+
+
+class LifecycleDriver(sansio.Driver):
+    """Driver that also delivers the connection lifecycle hooks which the real ConnectionHandler fires around
+    open_connection / handle_connection (server_connect, server_connected, server_connect_error, server_disconnected,
+    client_connected, client_disconnected) to the hook chain.  Hooks reach an addon by NAME (getattr on the live addon
+    object), so a hook an addon newly implements is delivered as well."""
+
+    def lifecycle(self, hook):
+        try:
+            self.run_addons(hook)
+        except Exception as e:  # like AddonManager: logged, the hook completes
+            self.exceptions.append(("addon:" + type(e).__name__, hook.name, self.step_no, repr(e)))
+        self.hooks.append((self.step_no, hook.name, hook, None))
+
+    def _hook_data(self, conn):
+        hd = self.__dict__.setdefault("_hd", {})
+        if conn not in hd:
+            hd[conn] = server_hooks.ServerConnectionHookData(client=self.client, server=conn)
+        return hd[conn]
+
+    def start(self):
+        self.__dict__.setdefault("_live", set())
+        self.lifecycle(server_hooks.ClientConnectedHook(self.client))
+        super().start()
+
+    def _complete(self, p):
+        if p.kind == "open":
+            self.lifecycle(server_hooks.ServerConnectHook(self._hook_data(p.conn)))
+            super()._complete(p)
+            if p.conn not in self.transports and p.conn not in self._live:
+                self.lifecycle(server_hooks.ServerConnectErrorHook(self._hook_data(p.conn)))
+        else:
+            super()._complete(p)
+
+    def connected(self, conn):
+        """called from the server_factory: the connection is OPEN, OpenConnectionCompleted not yet delivered"""
+        self._live.add(conn)
+        self.lifecycle(server_hooks.ServerConnectedHook(self._hook_data(conn)))
+
+    def sweep(self):
+        for conn in [c for c in self._live if c not in self.transports]:
+            self._live.discard(conn)
+            self.lifecycle(server_hooks.ServerDisconnectedHook(self._hook_data(conn)))
+
+    def step(self):
+        ok = super().step()
+        self.sweep()
+        return ok
+
+    def teardown(self):
+        super().teardown()
+        self.sweep()
+        self.lifecycle(server_hooks.ClientDisconnectedHook(self.client))
 
 
 def top_factory(mode):
@@ -149,7 +204,7 @@ def build_case(r):
             au = f"{host}:{port}"
             items.append({"kind": "connect", "tag": None, "raw": f"CONNECT {au} HTTP/1.1\r\nHost: {au}\r\n\r\n".encode(), "tunnel": False, "dest": (host, port)})
             if inner == "http":
-                for _ in range(r.choice([1, 1, 2, 3])):
+                for _ in range(r.choice([1, 2, 3, 4, 5])):
                     form = "absolute" if r.random() < 0.25 else "origin"
                     tag, raw = req(r, k, form, host, port)
                     k += 1
@@ -233,12 +288,19 @@ def run_case(ctx, tctx, ua, chain):
     tctx.options.update(upstream_auth=cred, connection_strategy=strategy, ssl_insecure=True)
 
     by_tag = {it["tag"]: it for it in spec["items"] if it["tag"]}
+    close_p = r.choice([0, 0, 0.4, 0.8])
 
     def responder(k, msg, peer):
         m = TAG.search(msg["target"])
         tag = m.group(0) if m else b"none"
         body = b"" if msg["method"] == "HEAD" else b"r:" + tag
-        return b"HTTP/1.1 200 OK\r\nx-tag: " + tag + b"\r\nContent-Length: " + (b"%d" % (len(body) if msg["method"] != "HEAD" else 4)) + b"\r\n\r\n" + body, False
+        # the upstream side may close after a response (announced keep-alive close, or silent idle close): mitmproxy keeps
+        # the client connection / client side of the tunnel and reconnects (re-CONNECTs) for the next request
+        how = r.choice(["announced", "silent"]) if r.random() < close_p else None
+        if how:
+            ctx.count("upstream.closes_after_response")
+        extra = b"Connection: close\r\n" if how == "announced" else b""
+        return b"HTTP/1.1 200 OK\r\nx-tag: " + tag + b"\r\n" + extra + b"Content-Length: " + (b"%d" % (len(body) if msg["method"] != "HEAD" else 4)) + b"\r\n\r\n" + body, bool(how)
 
     def connect_plan(msg, peer):
         if connect_answer == 200:
@@ -256,10 +318,11 @@ def run_case(ctx, tctx, ua, chain):
             p = P.ProxyPeer(responder, connect_plan, tunnel_factory)
         else:
             p = P.OriginPeer(responder)
+        drv.connected(conn)
         return P.TlsServerPeer(p) if addr[1] in TLS_PORTS else p
 
     client = sansio.make_client(mode)
-    d = sansio.Driver(
+    d = LifecycleDriver(
         top_factory(mode), client=client, options=tctx.options, rng=r, addons=chain, server_factory=server_factory,
         schedule=r.choice(["random", "random", "fifo"]), max_steps=4000,
     )
@@ -279,9 +342,12 @@ def run_case(ctx, tctx, ua, chain):
             return None
 
         d.injected.append((f"set-upstream_auth-{ci}", fire, lambda drv, ci=ci, j=j: done["n"] == ci and bytes(drv.out[client]).count(b"HTTP/1.1 ") >= sum(answering[:j])))
+    sequential = r.random() < 0.5  # every item is sent only after all earlier ones were answered (keep-alive client)
     for idx, it in enumerate(spec["items"]):
         need = sum(1 for j, _ in changes if j <= idx)
         g1 = (lambda drv: len(drv.out[client]) > 0) if (seen_gatepoint and gated) else None
+        if sequential and idx:
+            g1 = lambda drv, idx=idx: bytes(drv.out[client]).count(b"HTTP/1.1 ") >= sum(answering[:idx])
         gate = g1
         if need:
             gate = lambda drv, need=need, g1=g1: done["n"] >= need and (g1 is None or g1(drv))
@@ -340,6 +406,8 @@ def run_case(ctx, tctx, ua, chain):
                 seen_where.add("tunnel-tls")
                 report("tunnel-tls", conn, plain, item_of(plain))
 
+    ctx.count("hook.server_disconnected", sum(1 for h in d.hooks if h[1] == "server_disconnected"))
+    n_tunnels = 0
     for conn in d.servers:
         raw = bytes(d.out[conn])
         peer = d.peers.get(conn)
@@ -382,8 +450,11 @@ def run_case(ctx, tctx, ua, chain):
         if rest and auth_on and hit(rest):
             report("unparsed-upstream-bytes", conn, rest, item_of(rest))
         if payload is not None:
+            n_tunnels += 1
             scan_tunnel(conn, payload, getattr(inner_peer, "tunnel", None))
 
+    if fam == "upstream" and n_tunnels >= 2 and any(it["kind"].startswith("inner-http") for it in spec["items"]):
+        ctx.count("tunnel.reconnected")  # the client's single tunnel was served by >= 2 upstream CONNECTs
     kinds = tuple(it["kind"] for it in spec["items"])
     sig = (mode.split("//")[0], tuple("set" if c else "unset" for c in timeline), tuple(j for j, _ in changes), kinds, connect_answer if "connect" in kinds else None, strategy, tuple(sorted(seen_where)))
     sample = {"mode": mode, "upstream_auth_timeline": timeline, "option_changes_before_item": changes, "items": [it["kind"] for it in spec["items"]], "credential_seen_in": sorted(seen_where), "upstream_conns": [repr(c.address) for c in d.servers]}
